@@ -615,6 +615,15 @@ def judge(ctx, case, io, mo, stats):
     return False
 
 
+def model_disagrees_with_spec(mo):
+    """the model over the regenerated tables does something the documented specification forbids"""
+    threw = mo["outcome"][6:] if mo["outcome"].startswith("throw:") else None
+    evaluated = any(t in ("K", "D") for t in mo["trace"])
+    if mo["spec"] == "none":
+        return threw in VALIDATION_EXC
+    return threw != mo["spec"] or evaluated
+
+
 def evaluate(ctx, exe, mexe, cases, stats):
     impl = run_impl(ctx, exe, cases)
     model = run_model(ctx, mexe, cases)
@@ -699,13 +708,26 @@ def run(ctx):
     n = evaluate(ctx, exe, mexe, cases, stats)
     mark("cases run")
     ctx.note("phases (cumulative wall clock): " + ", ".join(phases))
-    if ctx.is_unshown() and ctx.quick:
-        # search phase: the thorough case set against the documented specification
-        more = build_cases(ctx, doc, gen, rng, False)
+    if ctx.is_unshown():
+        # search phase.  (a) model-guided: the model over the REGENERATED tables is cheap; requests on
+        # which it disagrees with the documented specification are where a changed table entry shows,
+        # so those run on the real library first; (b) the thorough case set against the specification.
+        more = build_cases(ctx, doc, gen, rng, False) if ctx.quick else random_cases(rng, 30000)
         rng.shuffle(more)
-        more = more[:12000]
-        n += evaluate(ctx, exe, mexe, more, stats)
-        cases += more
+        try:
+            mm = run_model(ctx, mexe, more)
+            suspects = [c for c, mo in zip(more, mm) if model_disagrees_with_spec(mo)]
+        except vlib.BuildError:
+            suspects = []
+        stats["search_model_guided_candidates"] = len(more)
+        stats["search_model_guided_suspects"] = len(suspects)
+        if suspects:
+            n += evaluate(ctx, exe, mexe, suspects[:1500], stats)
+            cases += suspects[:1500]
+        if not ctx.has_violation() and ctx.quick:
+            more = more[:12000]
+            n += evaluate(ctx, exe, mexe, more, stats)
+            cases += more
     hist = {}
     for c in cases:
         hist[c["gen"]] = hist.get(c["gen"], 0) + 1
@@ -732,6 +754,8 @@ def run(ctx):
                    "cells_covered(method,keyword,side)": len(cellset),
                    "echo_checked": stats.get("echo_checked", 0),
                    "post_validation_crash_or_timeout": stats.get("post_validation_crash", 0),
+                   "search_model_guided": [stats.get("search_model_guided_candidates", 0),
+                                           stats.get("search_model_guided_suspects", 0)],
                    "translator_ok": translated},
         trusted_base=TRUSTED,
         assumptions=["doubles handed to the model are the exact binary64 values (hex floats)",
